@@ -2,6 +2,8 @@ package rules
 
 import (
 	"fmt"
+	"go/token"
+	"go/types"
 	"strings"
 
 	"golang.org/x/tools/go/ssa"
@@ -66,6 +68,39 @@ func appendsOnPath(c *Ctx, rp core.RetPath) []appendEv {
 	return out
 }
 
+func isWaitGroupGo(in ssa.Instruction) bool {
+	call, ok := in.(*ssa.Call)
+	if !ok {
+		return false
+	}
+	cal := call.Common().StaticCallee()
+	return cal != nil && cal.String() == "(*sync.WaitGroup).Go"
+}
+
+// multiSpawns: go statements, errgroup.Go and sync.WaitGroup.Go calls of f.
+func multiSpawns(f *ssa.Function) []ssa.Instruction {
+	out := spawnSites(f)
+	for _, b := range f.Blocks {
+		for _, in := range b.Instrs {
+			if isWaitGroupGo(in) {
+				out = append(out, in)
+			}
+		}
+	}
+	return out
+}
+
+func workSignature(h *ssa.Function) bool {
+	res := h.Signature.Results()
+	if res.Len() != 2 || !isErrorType(res.At(1).Type()) {
+		return false
+	}
+	if b, ok := res.At(0).Type().Underlying().(*types.Basic); ok && b.Kind() == types.Float64 {
+		return true
+	}
+	return isNamed(res.At(0).Type(), core.ModulePath+"/result", "TracerouteRun")
+}
+
 func runC15(c *Ctx) {
 	R := c.R
 	f := c.P.Func("(traceroute.Traceroute).runTracerouteMulti")
@@ -74,36 +109,41 @@ func runC15(c *Ctx) {
 		return
 	}
 	fn := core.FuncName(f)
-	spawns := spawnSites(f)
+	spawns := multiSpawns(f)
 	R.Floor("R15.1:spawns", len(spawns), 3)
 	kinds := map[string]int{}
+	opts := inlineOpts{pkg: core.FuncPkg(f), stop: workSignature}
 	for i, sp := range spawns {
 		cl := spawnedClosure(c.P, sp)
+		if cl == nil && isWaitGroupGo(sp) {
+			if mc, ok := c.P.Def(sp.(*ssa.Call).Common().Args[1]).(*ssa.MakeClosure); ok {
+				cl, _ = mc.Fn.(*ssa.Function)
+			}
+		}
 		if cl == nil {
 			R.Fail("R15.1", fmt.Sprintf("%s#spawn[%d]", fn, i), sp.Pos(), fn, "spawned function cannot be resolved")
 			continue
 		}
-		// what does the closure run?
+		ips := InlinedPaths(c.P, cl, opts)
+		// what does the goroutine run? (its own statements or the helpers / methods they were moved into)
 		kind := "other"
-		for _, b := range cl.Blocks {
-			for _, in := range b.Instrs {
-				call, ok := in.(*ssa.Call)
-				if !ok {
+		var work *core.Term
+		for _, ip := range ips {
+			for _, ev := range ip.Events {
+				if ev.Kind != "call" {
 					continue
 				}
-				if ld, ok := call.Common().Value.(*ssa.UnOp); ok {
-					if g, ok := ld.X.(*ssa.Global); ok && g.Name() == "runTracerouteOnceFn" {
-						kind = "run"
-					}
-				}
-				if calleeIs(call, "traceroute.runE2eProbeOnce") {
+				switch {
+				case ev.Callee == "dyn" && len(ev.Args) > 0 && strings.Contains(ev.Args[0].String(), "runTracerouteOnceFn"):
+					kind = "run"
+				case strings.HasSuffix(ev.Callee, "runE2eProbeOnce"):
 					kind = "probe"
-				}
-				if call.Common().IsInvoke() && call.Common().Method.Name() == "GetIP" {
+				case strings.HasSuffix(ev.Callee, ".GetIP"):
 					kind = "publicip"
 				}
 			}
 		}
+		_ = work
 		kinds[kind]++
 		key := fmt.Sprintf("%s#goroutine[%s]", fn, kind)
 		// R15.1 loop shape
@@ -117,10 +157,68 @@ func runC15(c *Ctx) {
 					env := core.NewEnv(c.P, pa)
 					for _, a := range env.Atoms() {
 						nn := a.Norm()
-						if nn.Sign && nn.Cond.Op == "binop" && nn.Cond.Name == "<" && nn.Cond.Args[0].Op == "loopphi" && strings.HasSuffix(nn.Cond.Args[1].String(), want) {
-							bound = nn.Cond.Args[1].String()
-							if len(nn.Cond.Args[0].Args) > 0 {
-								init = nn.Cond.Args[0].Args[0].String()
+						if nn.Sign && nn.Cond.Op == "binop" && nn.Cond.Name == "<" && strings.HasSuffix(nn.Cond.Args[1].String(), want) {
+							lhs := nn.Cond.Args[0]
+							// `for i := 0; i < n; i++` (the counter) or `for i := range n` (rangeindex+1 in go/ssa's lowering)
+							if lhs.Op == "loopphi" || lhs.Has(func(z *core.Term) bool { return z.Op == "loopphi" }) {
+								bound = nn.Cond.Args[1].String()
+								lhs.Walk(func(z *core.Term) bool {
+									if z.Op == "loopphi" && len(z.Args) > 0 {
+										init = z.Args[0].String()
+									}
+									return true
+								})
+								if lhs.Op == "binop" && lhs.Name == "+" && init == "-1" {
+									init = "0" // rangeindex starts at -1 and is incremented before the test
+								}
+							}
+						}
+					}
+				}
+				// rotated lowering of `for i := range n` / `for range n`: the counter is a phi of the loop (0, phi+1) and the
+				// test `phi+1 < n` sits at the latch, so the first path to the spawn only carries the entry guard `0 < n`
+				if bound == "" {
+					for b := range loop {
+						for _, in := range b.Instrs {
+							phi, ok := in.(*ssa.Phi)
+							if !ok {
+								break
+							}
+							zero, step := false, false
+							for _, ed := range phi.Edges {
+								if cst, ok := ed.(*ssa.Const); ok && cst.Value != nil && cst.Int64() == 0 {
+									zero = true
+								}
+								if bo, ok := ed.(*ssa.BinOp); ok && bo.Op == token.ADD && bo.X == ssa.Value(phi) {
+									if cst, ok := bo.Y.(*ssa.Const); ok && cst.Value != nil && cst.Int64() == 1 {
+										step = true
+									}
+								}
+							}
+							if !zero || !step {
+								continue
+							}
+							for lb := range loop {
+								iff, ok := lb.Instrs[len(lb.Instrs)-1].(*ssa.If)
+								if !ok {
+									continue
+								}
+								bo, ok := iff.Cond.(*ssa.BinOp)
+								if !ok || bo.Op != token.LSS {
+									continue
+								}
+								x := bo.X
+								if add, ok := x.(*ssa.BinOp); ok && add.Op == token.ADD {
+									x = add.X
+								}
+								if x != ssa.Value(phi) {
+									continue
+								}
+								for _, pa := range firstPath(f, lb) {
+									if y := core.NewEnv(c.P, pa).Term(bo.Y).String(); strings.HasSuffix(y, want) {
+										bound, init = y, "0"
+									}
+								}
 							}
 						}
 					}
@@ -150,8 +248,8 @@ func runC15(c *Ctx) {
 				R.Check(exits == 1, "R15.1", key+"/no-early-exit", sp.Pos(), fn, "the spawn loop is left only when the counter reaches the requested count", fmt.Sprintf("the spawn loop has %d exits: fewer goroutines than requested may be started", exits))
 			}
 		}
-		// wg.Add(1) dominates the go, closure starts with defer wg.Done()
-		addOK := false
+		// wg.Add(1) dominates the go, closure starts with defer wg.Done() – or sync.WaitGroup.Go, which is exactly that pair
+		addOK, doneFirst := isWaitGroupGo(sp), isWaitGroupGo(sp)
 		for _, b := range f.Blocks {
 			for _, in := range b.Instrs {
 				if call, ok := in.(*ssa.Call); ok && call.Common().StaticCallee() != nil && call.Common().StaticCallee().String() == "(*sync.WaitGroup).Add" {
@@ -163,80 +261,75 @@ func runC15(c *Ctx) {
 				}
 			}
 		}
-		doneFirst := false
 		if len(cl.Blocks) > 0 && len(cl.Blocks[0].Instrs) > 0 {
 			if d, ok := cl.Blocks[0].Instrs[0].(*ssa.Defer); ok && d.Call.StaticCallee() != nil && d.Call.StaticCallee().String() == "(*sync.WaitGroup).Done" {
 				doneFirst = true
 			}
 		}
-		R.Check(addOK && doneFirst, "R15.1", key+"/waitgroup", sp.Pos(), fn, "wg.Add(1) precedes the go statement in the same iteration and the closure starts with defer wg.Done()", fmt.Sprintf("WaitGroup accounting broken: Add(1) before go=%v, defer Done() first=%v", addOK, doneFirst))
-		// R15.2 per-path appends
-		rps, complete := core.ReturnPaths(c.P, cl, 5000)
-		if !complete {
-			R.Fail("R15.2", key+"/paths", cl.Pos(), core.FuncName(cl), "closure paths cannot be enumerated: undecided")
-			continue
-		}
+		R.Check(addOK && doneFirst, "R15.1", key+"/waitgroup", sp.Pos(), fn, "wg.Add(1) precedes the go statement in the same iteration and the closure starts with defer wg.Done() (or sync.WaitGroup.Go)", fmt.Sprintf("WaitGroup accounting broken: Add(1) before go=%v, defer Done() first=%v", addOK, doneFirst))
+		// R15.2 per-path appends, with the helpers / locked accessor methods of the package opened in place
 		np := 0
-		for _, rp := range rps {
-			if rp.Ret.Block().Comment == "recover" {
-				continue
-			}
+		seenCase := map[string]bool{}
+		for _, ip := range ips {
 			np++
-			evs := appendsOnPath(c, rp)
 			cnt := map[string]int{}
 			var zeroRTT, rttFromProbe bool
-			for _, ev := range evs {
-				short := ev.obj[strings.LastIndex(ev.obj, "runTracerouteMulti.")+len("runTracerouteMulti."):]
+			for _, ev := range ip.Events {
+				if ev.Kind != "append" {
+					continue
+				}
+				short := map[string]string{"Runs": "Runs", "RTTs": "RTTs", "[]error": "errors"}[ev.Target]
+				if short == "" {
+					short = ev.Target
+				}
 				cnt[short]++
-				if short == "results.E2eProbe.RTTs" {
-					for _, e := range ev.elems {
+				if short == "RTTs" {
+					for _, e := range ev.Elems {
 						if e.IsConst("0") {
 							zeroRTT = true
 						}
-						if e.Op == "extract" && isCallToSuffix(e.Args[0], "runE2eProbeOnce") {
+						if e.Op == "extract" && e.Name == "0" && isCallToSuffix(e.Args[0], "runE2eProbeOnce") {
 							rttFromProbe = true
 						}
 					}
 				}
 			}
 			failed := false
-			for _, a := range rp.Atoms {
+			for _, a := range ip.Atoms {
 				nn := a.Norm()
 				if nn.Cond.Op == "binop" && nn.Cond.Name == "==" && nn.Cond.Args[1].IsConst("nil") && nn.Cond.Args[0].Op == "extract" && nn.Cond.Args[0].Name == "1" && !nn.Sign {
 					failed = true
 				}
 			}
 			pkey := fmt.Sprintf("%s/path[failed=%v]", key, failed)
-			pstr := rp.Path.String()
+			seenCase[fmt.Sprint(failed)] = true
 			switch kind {
 			case "run":
-				ok := (failed && cnt["multiErr"] == 1 && cnt["results.Traceroute.Runs"] == 0) || (!failed && cnt["multiErr"] == 0 && cnt["results.Traceroute.Runs"] == 1)
-				if ok && cnt["results.E2eProbe.RTTs"] == 0 {
+				ok := (failed && cnt["errors"] == 1 && cnt["Runs"] == 0) || (!failed && cnt["errors"] == 0 && cnt["Runs"] == 1)
+				if ok && cnt["RTTs"] == 0 {
 					R.OK("R15.2", pkey, cl.Pos(), core.FuncName(cl), fmt.Sprintf("appends %v", cnt))
 				} else {
-					R.FailPath("R15.2", pkey, cl.Pos(), core.FuncName(cl), fmt.Sprintf("a run goroutine path (failed=%v) appends %v: it must add exactly one element to exactly one of Runs / the error list", failed, cnt), pstr)
+					R.FailPath("R15.2", pkey, cl.Pos(), core.FuncName(cl), fmt.Sprintf("a run goroutine path (failed=%v) appends %v: it must add exactly one element to exactly one of Runs / the error list", failed, cnt), ip.Desc)
 				}
 			case "probe":
-				ok := cnt["results.E2eProbe.RTTs"] == 1 && cnt["results.Traceroute.Runs"] == 0 && ((failed && cnt["multiErr"] == 1 && zeroRTT) || (!failed && cnt["multiErr"] == 0 && rttFromProbe))
+				ok := cnt["RTTs"] == 1 && cnt["Runs"] == 0 && ((failed && cnt["errors"] == 1 && zeroRTT) || (!failed && cnt["errors"] == 0 && rttFromProbe))
 				if ok {
 					R.OK("R15.2", pkey, cl.Pos(), core.FuncName(cl), fmt.Sprintf("appends %v (RTT 0 on failure=%v)", cnt, zeroRTT))
 				} else {
-					R.FailPath("R15.2", pkey, cl.Pos(), core.FuncName(cl), fmt.Sprintf("a probe goroutine path (failed=%v) appends %v (zero RTT=%v, measured RTT=%v): it must add exactly one RTT sample (0 on failure) and one error exactly on failure", failed, cnt, zeroRTT, rttFromProbe), pstr)
+					R.FailPath("R15.2", pkey, cl.Pos(), core.FuncName(cl), fmt.Sprintf("a probe goroutine path (failed=%v) appends %v (zero RTT=%v, measured RTT=%v): it must add exactly one RTT sample (0 on failure) and one error exactly on failure", failed, cnt, zeroRTT, rttFromProbe), ip.Desc)
 				}
 			case "publicip":
-				ok := cnt["multiErr"] == 0 && cnt["results.Traceroute.Runs"] == 0 && cnt["results.E2eProbe.RTTs"] == 0
-				// and no store to multiErr at all
+				ok := cnt["errors"] == 0 && cnt["Runs"] == 0 && cnt["RTTs"] == 0
 				R.Check(ok, "R15.2", pkey, cl.Pos(), core.FuncName(cl), "public-IP goroutine touches neither the error list nor the samples", fmt.Sprintf("public-IP goroutine appends %v: a public-IP failure must never fail the request", cnt))
 			default:
 				R.Fail("R15.2", pkey, cl.Pos(), core.FuncName(cl), "an unrecognised goroutine is started by the multi-query layer: re-confirm R15")
 			}
 		}
-		R.Floor("R15.2:paths:"+kind, np, 2)
+		R.Floor("R15.2:paths:"+kind, len(seenCase), 2)
+		_ = np
 	}
 	R.Check(kinds["run"] == 1 && kinds["probe"] == 1 && kinds["publicip"] == 1, "R15.1", fn+"#goroutine-kinds", f.Pos(), fn, "one spawn site each for runs, probes and public IP", fmt.Sprintf("spawn sites by kind: %v", kinds))
-	// R15.3
-	rps, _ := core.ReturnPaths(c.P, f, 20000)
-	nret := 0
+	// R15.3: after Wait, any recorded failure ⇒ (nil, errors.Join(all)); none ⇒ the accumulated document
 	var waits []ssa.Instruction
 	for _, b := range f.Blocks {
 		for _, in := range b.Instrs {
@@ -245,13 +338,36 @@ func runC15(c *Ctx) {
 			}
 		}
 	}
-	seen := map[string]bool{}
-	for _, rp := range rps {
-		if rp.Ret.Block().Comment == "recover" {
-			continue
+	isErrList := func(t *core.Term) bool {
+		if t == nil || t.Typ == nil {
+			return false
 		}
-		r0, r1 := rp.Results[0], rp.Results[1]
-		key := fmt.Sprintf("%s#return[b%d]", fn, rp.Ret.Block().Index)
+		sl, ok := t.Typ.Underlying().(*types.Slice)
+		return ok && isErrorType(sl.Elem())
+	}
+	hasErrList := func(t *core.Term) bool { return t.Has(isErrList) }
+	nret := 0
+	seen := map[string]bool{}
+	for _, ip := range InlinedPaths(c.P, f, inlineOpts{pkg: core.FuncPkg(f), stop: workSignature}) {
+		r0, r1 := ip.Results[0], ip.Results[1]
+		// the decision: len(errs) > 0, or errors.Join(errs...) != nil
+		decided, failedCase := false, false
+		for _, a := range ip.Atoms {
+			nn := a.Norm()
+			t := nn.Cond
+			switch {
+			case t.Op == "binop" && t.Name == ">" && t.Args[0].Op == "len" && hasErrList(t.Args[0]) && t.Args[1].IsConst("0"):
+				decided, failedCase = true, nn.Sign
+			case t.Op == "binop" && t.Name == "==" && t.Args[0].Op == "len" && hasErrList(t.Args[0]) && t.Args[1].IsConst("0"):
+				decided, failedCase = true, !nn.Sign
+			case t.Op == "binop" && t.Name == "==" && t.Args[1].IsConst("nil") && t.Args[0].Op == "call" && t.Args[0].Name == "errors.Join" && hasErrList(t.Args[0]):
+				decided, failedCase = true, !nn.Sign
+			}
+		}
+		key := fmt.Sprintf("%s#return[failures=%v]", fn, failedCase)
+		if !decided {
+			key = fmt.Sprintf("%s#return[b%d]", fn, ip.Ret.Block().Index)
+		}
 		if seen[key] {
 			continue
 		}
@@ -259,23 +375,21 @@ func runC15(c *Ctx) {
 		nret++
 		dom := false
 		for _, w := range waits {
-			if core.InstrDominates(w, rp.Ret) {
+			if core.InstrDominates(w, ip.Ret) {
 				dom = true
 			}
 		}
-		f1, s1 := atomTrue(rp.Atoms, func(t *core.Term) bool {
-			return t.Op == "binop" && t.Name == ">" && t.Args[0].Op == "len" && strings.Contains(t.Args[0].String(), "multiErr") && t.Args[1].IsConst("0")
-		})
 		switch {
 		case !dom:
-			R.Fail("R15.3", key, rp.Ret.Pos(), fn, "a return is not dominated by wg.Wait(): results may be incomplete")
-		case f1 && s1:
-			ok := r0.IsConst("nil") && r1.Op == "call" && r1.Name == "errors.Join" && strings.Contains(r1.String(), "multiErr") && !strings.Contains(r1.String(), "slice(")
-			R.Check(ok, "R15.3", key, rp.Ret.Pos(), fn, "any failure ⇒ (nil, errors.Join(all failures))", "with failures recorded the function returns "+r0.String()+", "+r1.String()+" instead of (nil, errors.Join(multiErr...))")
-		case f1 && !s1:
-			R.Check(r1.IsConst("nil") && r0.Op == "alloc" && r0.Name == "results", "R15.3", key, rp.Ret.Pos(), fn, "no failure ⇒ the accumulated document", "without failures the function returns "+r0.String()+", "+r1.String())
+			R.Fail("R15.3", key, ip.Ret.Pos(), fn, "a return is not dominated by wg.Wait(): results may be incomplete")
+		case !decided:
+			R.Fail("R15.3", key, ip.Ret.Pos(), fn, "a return does not depend on whether a failure was recorded (len(errs) > 0 / errors.Join(errs...) != nil)")
+		case failedCase:
+			ok := r0.IsConst("nil") && r1.Op == "call" && r1.Name == "errors.Join" && hasErrList(r1) && !strings.Contains(r1.String(), "slice(")
+			R.Check(ok, "R15.3", key, ip.Ret.Pos(), fn, "any failure ⇒ (nil, errors.Join(all failures))", "with failures recorded the function returns "+r0.String()+", "+r1.String()+" instead of (nil, errors.Join(all failures...))")
 		default:
-			R.Fail("R15.3", key, rp.Ret.Pos(), fn, "a return does not depend on len(multiErr) > 0")
+			isDoc := r0.Typ != nil && isNamed(r0.Typ, core.ModulePath+"/result", "Results") && !r0.IsConst("nil")
+			R.Check(r1.IsConst("nil") && isDoc, "R15.3", key, ip.Ret.Pos(), fn, "no failure ⇒ the accumulated document", "without failures the function returns "+r0.String()+", "+r1.String())
 		}
 	}
 	R.Floor("R15.3:returns", nret, 2)
